@@ -96,6 +96,22 @@ def run(tier, seed):
             cases.q("insert", "test_c.py", l)
         if "usefixtures(\n" in t or "(\n" in t:
             r.nontrivial.add(t)
+    # (A2) what completion offers from: the per-file view, entry by entry against resolution, on workspaces with
+    # workspace plugins and installed (site-packages) fixtures of the same names — precedence decides which entry a
+    # name gets, hence its sort class and whether the scope filter lets it through
+    for i in range(40 if tier == "quick" else 600):
+        ws = wsgen.gen_workspace(r.rng)
+        name = "v%d" % i
+        cases.case(name, ws.meta)
+        wsgen.emit_setup(cases, ws)
+        # a re-analysis of a plugin module changes the order of the per-name list (site-packages may come first then)
+        for p in ws.plugin:
+            if r.rng.random() < 0.5 and p in ws.files:
+                cases.op("analyze", p, "t%d" % list(ws.files).index(p))
+        for p in ws.files:
+            cases.q("avail", p)
+            for nm in wsgen.NAMES:
+                cases.q("resolve", p, nm)
     r.samples = [{"text": d[1]} for d in docs[:2]]
     ia, ma, sp = r.run_cases(cases)
     r.evaluations = len(ia)
@@ -124,6 +140,8 @@ def run(tier, seed):
                    f"{'inside' if l1 in due else 'outside'} a test/fixture function or fixture-name argument list")
             v.violation(f"{name}-{k[1]}", msg, f"# {msg}\n# query #{k[1]}\n" + cases.replay_text(name))
     r.stats["lines_compared_with_cpython_oracle"] = nor
+    from . import c05
+    c05.cross(r, cases, ia, ma, sp)
     # (B) handler level
     nws = 12 if tier == "quick" else 150
     scs = []
